@@ -1,7 +1,8 @@
 #!/bin/sh
 # Build /repo's current working tree of the library (API/Sources/*.c) into $1/libecbufr_verif.a
 # with AddressSanitizer + UBSan and the guard -DLIBECBUFR_VERIF.  Nothing is written into /repo.
-# usage: build.sh OUTDIR [plain]     ("plain" = no sanitizers, -O2, for the big sweeps)
+# usage: build.sh OUTDIR [plain|asan0]   ("plain" = no sanitizers, -O2, for the big sweeps; "asan0" = sanitizers at -O0:
+# nothing the source says is elided by the optimiser, e.g. a malloc whose result is overwritten)
 set -e
 OUT="$1"; MODE="${2:-asan}"
 REPO="${VERIF_REPO:-/repo}"
@@ -12,7 +13,7 @@ if [ -f "$REPO/config.h" ]; then cp "$REPO/config.h" "$OUT/inc/config.h"; else c
 if [ -f "$REPO/API/Headers/bufr_api.h" ]; then :; else
   sed 's/@PACKAGE_VERSION@/0.9.4/' "$REPO/API/Headers/bufr_api.h.in" > "$OUT/inc/bufr_api.h"; fi
 printf '#define LOCALEDIR "/nonexistent"\n' > "$OUT/inc/verif_defs.h"
-if [ "$MODE" = plain ]; then SAN="-O2"; else SAN="-O1 -g -fsanitize=address,undefined -fno-omit-frame-pointer"; fi
+if [ "$MODE" = plain ]; then SAN="-O2"; elif [ "$MODE" = asan0 ]; then SAN="-O0 -g -fsanitize=address,undefined -fno-omit-frame-pointer"; else SAN="-O1 -g -fsanitize=address,undefined -fno-omit-frame-pointer"; fi
 CF="-std=gnu99 $SAN -DLIBECBUFR_VERIF -DHAVE_CONFIG_H -include $OUT/inc/verif_defs.h -w -I$OUT/inc -I$REPO/API/Headers -I$REPO/API/Headers/private -I$REPO/API/Sources"
 echo "$CF" > "$OUT/cflags"
 ls "$REPO"/API/Sources/*.c | xargs -P16 -I{} sh -c "gcc $CF -c {} -o $OUT/obj/\$(basename {} .c).o" 
